@@ -15,12 +15,15 @@ def observe(tf, root, pl, via_cli, out):
     """Project a created v1 metafile to what C01 talks about."""
     import pyben
     with quiet():
-        if via_cli:
+        if via_cli is True:
             tf.execute(["create", root, "--piece-length", str(pl), "--prog", "0",
                         "-o", out])
         else:
             from torrentfile.torrent import TorrentFile
-            TorrentFile(path=root, piece_length=pl, progress=0, outfile=out).write()
+            obj = TorrentFile(path=root, piece_length=pl, progress=0, outfile=out)
+            for _ in range({"again1": 1, "again2": 2}.get(via_cli, 0)):
+                obj.assemble()      # object reuse: assembling again must give the same listing
+            obj.write()
     raw = open(out, "rb").read()
     meta = refspec.lenient_decode(raw)
     info = meta[b"info"]
@@ -115,7 +118,7 @@ def run_case(run, tf, drv, files, pl, single, via_cli, tag, spelling=None):
             break
     drv.ask("v1 0 %d %s" % (pl, " ".join(b.token() for _, b in order)),
             (case, obs["pieces"], exp["pieces"]))
-    if not via_cli:
+    if via_cli is not True:
         from harness.props import creation as cr
         name = files[0][0].split("/")[-1] if single else "payload"
         cr.ask_createfull(drv, ("createfull", case, obs["raw"]), "v1", files, pl, single, name,
@@ -123,7 +126,7 @@ def run_case(run, tf, drv, files, pl, single, via_cli, tag, spelling=None):
     run.case(shape_key(files, pl, single), nontrivial(files, pl, single),
              sample=case, classes=[f"files={len(files)}", f"pl={pl}",
                                    "single" if single else "dir",
-                                   "cli" if via_cli else "lib"])
+                                   "cli" if via_cli is True else "lib" if not via_cli else "lib-" + via_cli])
 
 
 def _short(v):
@@ -185,7 +188,8 @@ def run(tier, seed, replay=None):
                 files = [(rng.choice(gen.NAMES), gen.pick_blob(rng, size))]
             else:
                 files, _ = gen.tree(rng, B, pl, big=(tier != "quick"))
-            run_case(run, tf, drv, files, pl, single, rng.random() < 0.3, "random",
+            run_case(run, tf, drv, files, pl, single,
+                     rng.choice([True] * 6 + [False] * 11 + ["again1", "again1", "again2"]), "random",
                      spelling=rng.choice([None, None, None, "trail", "dot", "dotslash", "dbl", "updown"]))
         big_piece(run)
         if tier == "thorough":
